@@ -504,6 +504,9 @@ class IndexLevel:
             return self.leaf_loc_to_iloc(key)
 
         # HLoc following: collect all ilocs for all leaf indices matching HLoc patterns
+        if len(key) > self.depth:
+            # selectors beyond the depth would be ignored: as for a tuple, such a key matches nothing
+            raise KeyError(f'Invalid key length {len(key)}; must be no longer than {self.depth}.')
         ilocs = []
         levels = deque(((self, 0, 0),)) # order matters
 
